@@ -94,6 +94,14 @@ CHECKS["C13"] = (
     "DESIGN.md section 5 C13, section 3.5",
 )
 
+CHECKS["C11"] = (
+    "fault_enumeration",
+    "fault injection with an observer plus schedule stress: failures are injected at every position and push order of establishing a multi-Var binding (non-dynamic Var, validator rejection) through binding / with-bindings / push-thread-bindings; generated nested histories of push/pop/set!/throw/convey/isolated-reader steps are compared step by step with a per-thread frame-stack model; 2-3 threads run such histories under the cooperative scheduler",
+    "Held on the enumerated establishment faults (all subsets, positions, push orders, nesting depth 0-2), random well-nested histories to depth 4 with conveyance through bound-fn, future and pmap and isolated reader threads, and multi-threaded runs (random walks and <= 2-preemption enumeration). Fault enumeration for the establishment failures; exploration for the rest.",
+    "Trusted: the frame-stack model (set! changes the innermost binding of that Var, which may belong to an outer frame and then outlives the inner form); set! outside any binding frame is not generated; pmap is realised inside the binding scope that creates it.",
+    "DESIGN.md section 5 C11",
+)
+
 NOT_BUILT ="check not built yet in this session (design in DESIGN.md section 5); not claimed until its monitor exists and is quiet on the unchanged tree"
 
 
